@@ -2,7 +2,7 @@
 # seed_sweep_iso.sh IDs...: like seed_sweep.sh but leaves /repo alone: each seeded change is applied to a scratch git worktree of /repo's HEAD and the
 # check runs against it (VERIF_REPO) with its own work and evidence directories, so it can run next to other checks. The scratch copy is removed afterwards.
 cd /verif
-WT=/tmp/wt/sweep_iso; WK=/tmp/wk_sweep_iso; EV=/tmp/ev_sweep_iso
+S=${SWEEP_SUFFIX:-}; WT=/tmp/wt/sweep_iso$S; WK=/tmp/wk_sweep_iso$S; EV=/tmp/ev_sweep_iso$S
 for id in "$@"; do
   p=seeded/$id/patch.rebased.diff; [ -f $p ] || p=seeded/$id/patch.diff
   git -C /repo worktree remove --force $WT >/dev/null 2>&1
